@@ -483,8 +483,8 @@ impl Check for C28 {
     }
     fn cases(&self, tier: Tier) -> u64 {
         match tier {
-            Tier::Quick => 1_500_000,
-            Tier::Thorough => 40_000_000,
+            Tier::Quick => 15_000_000,
+            Tier::Thorough => 120_000_000,
         }
     }
     fn tape_len(&self, _t: Tier) -> usize {
@@ -516,6 +516,29 @@ impl Check for C28 {
             _ => BMsg::EmptyQuery,
         };
         let prefix = if t.chance(3, 20) { (0..1 + t.below(9)).map(|_| *t.pick(&[0u8, b'Z', 0xff, 5, b'C'])).collect() } else { vec![] };
+        // bound the frame size (~400 kB): many fields x long items would only burn time
+        let mut msg = msg;
+        const BUDGET: usize = 400_000;
+        match &mut msg {
+            BMsg::RowDescription { fields } => {
+                let item = fields.pool.iter().map(|f| f.name.len() + 25).max().unwrap_or(25);
+                fields.n = fields.n.min((BUDGET / item).max(1) as u32);
+            }
+            BMsg::DataRow { values } => {
+                let item = values
+                    .pool
+                    .iter()
+                    .map(|v| match v {
+                        Val::Null => 4,
+                        Val::Bytes(b) => b.len() + 4,
+                        Val::Fill { len, .. } => *len as usize + 4,
+                    })
+                    .max()
+                    .unwrap_or(4);
+                values.n = values.n.min((BUDGET / item).max(1) as u32);
+            }
+            _ => {}
+        }
         Case { msg, prefix }
     }
 
